@@ -2,6 +2,9 @@ use crate::errors::{Result, RuleEngineError};
 use crate::types::{Context, Value};
 use serde::{Deserialize, Serialize};
 use std::collections::HashMap;
+#[cfg(rre_verif_shuttle)]
+use shuttle::sync::{Arc, RwLock};
+#[cfg(not(rre_verif_shuttle))]
 use std::sync::{Arc, RwLock};
 
 /// Facts - represents the working memory of data objects
@@ -351,6 +354,12 @@ impl Facts {
                 }
             }
         }
+    }
+
+    /// Verification seam: number of undo frames currently open (read-only)
+    #[cfg(rre_verif)]
+    pub fn verif_undo_depth(&self) -> usize {
+        self.undo_frames.read().unwrap().len()
     }
 
     /// Record prior state for a top-level key if an undo frame is active
